@@ -283,8 +283,31 @@ theorem sp_handleResendRequest (s : Sess) (m : InMsg) : SP s (handleResendReques
 theorem sp_logonReply (s : Sess) (m : InMsg) (flag : Bool) : SP s (logonReply s m flag) := by
   unfold logonReply; sp_cases
 
-theorem sp_logonFinish (s : Sess) (m : InMsg) : SP s (logonFinish s m).1 := by
-  unfold logonFinish; sp_cases
+theorem sp_nxEval (s : Sess) (m : InMsg) (ns : Int) : SP s (nxEval s m ns).1 := by
+  unfold nxEval
+  sp_cases
+
+theorem sp_logonFinish (s : Sess) (m : InMsg) (ns : Int) : SP s (logonFinish s m ns).1 := by
+  unfold logonFinish
+  have h : SP s (nxEval (((s.setSentReset false).emit (.armPeer (1200 * s.hb))).emit .onLogon) m ns).1 :=
+    SP.trans (by sp_peel) (sp_nxEval _ m ns)
+  generalize nxEval _ m ns = r at h
+  obtain ⟨x, o⟩ := r
+  cases o with
+  | some r => exact h
+  | none =>
+    dsimp only at h ⊢
+    sp_cases
+
+theorem sp_logonRefused (s : Sess) (m : InMsg) : SP s (logonRefused s m) := by
+  unfold logonRefused
+  sp_cases
+
+theorem sp_logonTail (s : Sess) (m : InMsg) (ns : Int) : SP s (logonTail s m ns).1 := by
+  unfold logonTail
+  split
+  · exact sp_logonRefused s m
+  · exact (sp_logonReply s m _).trans (sp_logonFinish _ m _)
 
 theorem sp_handleLogon (s : Sess) (m : InMsg) : SP s (handleLogon s m).1 := by
   unfold handleLogon
@@ -312,7 +335,7 @@ theorem sp_handleLogon (s : Sess) (m : InMsg) : SP s (handleLogon s m).1 := by
       have h4 := h3.trans hv2
       cases o2 with
       | some r => exact h4
-      | none => exact (h4.trans (sp_logonReply s4 m _)).trans (sp_logonFinish _ m)
+      | none => exact h4.trans (sp_logonTail s4 m _)
 
 theorem sp_inSessionFixMsgIn (s : Sess) (m : InMsg) : SP s (inSessionFixMsgIn s m).1 := by
   unfold inSessionFixMsgIn
